@@ -298,7 +298,7 @@ func uniqStr(in []string) []string {
 }
 
 func c09(c *core.Ctx) {
-	c.Explain("C09 (durable redis sessions): decided statically — R1 persist-before-apply: in the redis subscription and unack stores every change of the in-memory mirror is made only after the redis command (and the Flush of a pipeline) succeeded; R2 codec agreement: the encoder and decoder of subscriptions, messages and queue elements use the same sequence of primitive kinds for the same fields, the same tag→(kind, field) table for the tagged tail, and cover every field; R3 key agreement: each store builds all its keys from one prefix constant and the id, the id handed to the memory mirror at start-up is the id used in the key, and a subscription is stored under the field name it is later deleted by; R4 no slice-typed value occupies a single argument slot of a redigo command; R5 SUBACK is written only after every Subscribe returned; R6 start-up rebuilds a queue and an unack store for every stored session and hands all ids to the subscription store, the session scan ends only when the cursor returns to 0, and the redis queue re-reads its length on every successful Init; R7 the duplicate verdict of the redis unack store comes from redis, not only from the process-local cache.")
+	c.Explain("C09 (durable redis sessions): decided statically — R1 persist-before-apply: in the redis subscription and unack stores every change of the in-memory mirror is made only after the redis command (and the Flush of a pipeline) succeeded; R2 codec agreement: the encoder and decoder of subscriptions, messages and queue elements use the same sequence of primitive kinds for the same fields, the same tag→(kind, field) table for the tagged tail, and cover every field; R3 key agreement: each store builds all its keys from one prefix constant and the id, the id handed to the memory mirror at start-up is the id used in the key, and a subscription is stored under the field name it is later deleted by; R4 no slice-typed value occupies a single argument slot of a redigo command; R5 SUBACK is written only after every Subscribe returned; R6 start-up rebuilds a queue and an unack store for every stored session and hands all ids to the subscription store, the session scan ends only when the cursor returns to 0, and the redis queue re-reads its length on every successful Init; R7 the duplicate verdict of the redis unack store comes from redis, not only from the process-local cache. Added in the second round: Every mutator issues its redis command on every path that reports success; the offline deadline of a session loaded at start-up is now+interval.")
 	c.NotDecided("recovery from every prefix of the command journal (needs the journal / executions); atomicity of multi-command updates")
 	p := c.P
 	offlineDeadlineBase(c, "C09.R6")
